@@ -964,6 +964,9 @@ Emit ==
            img |-> ib, rel |-> RelOut(v.img.rel \cap v.alt.rel),
            unc |-> IF same THEN <<>> ELSE um,
            optrel |-> IF same THEN <<>> ELSE RelOut((v.img.rel \cup v.alt.rel) \ (v.img.rel \cap v.alt.rel)),
+           \* 6.7.9p10: an object of static storage duration declared without initializer (e.g. a later declarator of
+           \* the same declaration, `static T x = I, x_z;`) is all zero
+           zimg |-> IF IsIncT(top) THEN <<>> ELSE ImgBytes(ZeroImg(Ty[top].size * 8), Ty[top].size),
            ex |-> [i \in 1..Len(v.D.w) |-> [tp |-> v.D.w[i].tp, lt |-> v.D.w[i].lt, c |-> ExprC(v.D.w[i])]],
            agg |-> v.hasagg,
            am |-> [k \in 1..v.size |-> LET d(i) == IF (8 * (k - 1) + i) \in v.lmask THEN 1 ELSE 0
@@ -979,7 +982,10 @@ Emit ==
 \* tables the harness needs (types for rendering and for the gcc audit, value tables)
 EmitTables ==
   pc = "head" => PrintT("VTABLES " \o ToJson([ty |-> Ty, vals |-> ValTab, addr |-> AddrTab,
-                               strs |-> <<StrData(1), StrData(2)>>, aggx |-> AggX, aggy |-> AggY]))
+                               strs |-> <<StrData(1), StrData(2)>>, aggx |-> AggX, aggy |-> AggY,
+                               \* declarator-list forms of a plain case (same parser input, so not part of the state space):
+                               \* `static T x = I, x_z, x_2 = I;` in a block, the same thread-local, and at file scope
+                               listforms |-> <<"list-block", "list-thread", "list-file">>]))
 
 \* terminal states only matter through the token history
 =============================================================================
